@@ -29,6 +29,7 @@ fn build_weak(n: usize) {
             let t = if c == 1 { i } else { (i + 1) % n };
             if let (Some(owner), Some(target)) = (handle(i), handle(t)) {
                 *owner.wslot() = Some(target.downgrade());
+                w().wedge[i] = t as u8;
             }
         }
     }
